@@ -339,7 +339,10 @@ def temp_disabled(opt, a):
 
 def run_sequence(case, rec, twin=None, with_oracles=True):
     unit = all(v["weight"] == 1.0 for v in case["vary"])
-    out = {"status": "ok", "steps": [], "C09": [], "C10": [], "C15": []}
+    out = {"status": "ok", "steps": [], "C09": [], "C10": [], "C15": [],
+           "observations": {"temporary_flags_left_changed_by_raising_step": 0,
+                            "container_outside_limits_after_raising_step": 0,
+                            "container_left_on_unlogged_point_by_raising_step": 0}}
     try:
         opt, cont, names, g = build(case, rec, twin)
     except Exception as e:
@@ -477,6 +480,16 @@ def run_sequence(case, rec, twin=None, with_oracles=True):
                                                "op": iop, "knobs": HL(kn_after)})
                 except UserFault:
                     pass
+        if with_oracles and kind == "step" and status != "ok":
+            # observations outside the properties (recorded, never a failure)
+            dv, dt = temp_disabled(opt, op[3])
+            if any(va_before[j] and not va_after[j] for j in dv) or any(ta_before[j] and not ta_after[j] for j in dt):
+                out["observations"]["temporary_flags_left_changed_by_raising_step"] += 1
+            if within_limits(case, kn_after):
+                out["observations"]["container_outside_limits_after_raising_step"] += 1
+            last = [float(v) for v in L["knobs"][nrows - 1]] if nrows else None
+            if kn_after != kn_before and kn_after != last:
+                out["observations"]["container_left_on_unlogged_point_by_raising_step"] += 1
         if ob["ragged"]:
             out["status"] = "ragged"
             break
@@ -492,9 +505,9 @@ def rows_oracle(opt, cont, names, g, case, unit, iop):
     L = opt._log
     nrows = min(len(L[k]) for k in L)
     if any(len(L[k]) != nrows for k in L):
-        return [{"what": "log columns have different lengths (an exception inside add_point_to_log left the knobs column one longer): "
-                         "later rows pair knob values with the penalty/targets of another point",
-                 "signature": "ragged-log-after-exception-in-add_point_to_log", "at": iop,
+        return [{"what": "log columns have different lengths (an exception inside add_point_to_log left one column longer): "
+                         "later rows pair knob values with the penalty/targets of another point, reload(i) loads the wrong point",
+                 "at": iop,
                  "lengths": {k: len(L[k]) for k in ("knobs", "penalty", "targets", "tag")}}]
     saved_rec = CUR["rec"]
     CUR["rec"] = None
@@ -621,7 +634,7 @@ def run_case(case):
             out["twin_run"] = True
     except CaseTimeout:
         CUR["rec"] = None
-        return {"status": "timeout", "C09": [], "C10": [], "C15": [], "steps": []}
+        return {"status": "timeout", "C09": [], "C10": [], "C15": [], "steps": [], "observations": {}}
     finally:
         signal.setitimer(signal.ITIMER_REAL, 0)
         CUR["rec"] = None
